@@ -399,3 +399,14 @@ fn highest_bit_set(x: u32) -> u32 {
     assert!(x > 0);
     u32::BITS - x.leading_zeros()
 }
+
+#[cfg(ruzstd_verif)]
+impl HuffmanTable {
+    /// verification hook: (max_num_bits, per table index (symbol, num_bits))
+    pub fn verif_dump(&self) -> (u8, Vec<(u8, u8)>) {
+        (
+            self.max_num_bits,
+            self.decode.iter().map(|e| (e.symbol, e.num_bits)).collect(),
+        )
+    }
+}
